@@ -99,8 +99,8 @@ Definition eqn (i k : nat) : nat := if Nat.eqb i k then 1 else 0.
 
 (* try_complete(k) has been won by this thread; it is on its way to complete the receiver *)
 Definition is_post (k : nat) (x : act * cont) : nat :=
-  match fst x with
-  | ASyncStore i _ | ADeregAcq i _ | ADeregRel i _ _ | ADeregWait i _ | AHop i _ => eqn i k
+  match x with
+  | (ASyncStore i _, _) | (ADeregAcq i _, _) | (ADeregRel i _ _, _) | (ADeregWait i _, _) | (AHop i _, _) => eqn i k
   | _ => 0
   end.
 
@@ -125,7 +125,7 @@ Definition is_lockish (k : nat) (x : act * cont) : nat :=
   | _ => 0
   end.
 
-Definition is_poppub (x : act * cont) : nat := match fst x with APopPub _ => 1 | _ => 0 end.
+Definition is_poppub (x : act * cont) : nat := match x with (APopPub _, _) => 1 | _ => 0 end.
 
 Definition inq (s : st) (k : nat) : nat := count_occ Nat.eq_dec (queue s) k.
 Definition handles (s : st) (k : nat) : nat := sumf (is_pre k) (thr s) + inq s k.
@@ -346,4 +346,215 @@ Proof.
      | eapply (v_ki _ I); eauto]).
     all: pose proof (v_bs _ I _ _ _ Hth eq_refl) as B; unfold getop in *; rewrite B in *;
          rewrite ?andb_false_r in *; simpl in *; discriminate.
+Qed.
+
+Lemma pre_start_own s t x i : Inv s -> nth_error (thr s) t = Some x -> pre_start x = Some i -> t = i.
+Proof.
+  intros I H Hp. destruct x as [a kc].
+  destruct a; simpl in Hp; try discriminate;
+    try (inversion Hp; subst; eapply (v_own_a _ I); eauto; reflexivity).
+  destruct kc; try discriminate. inversion Hp; subst.
+  pose proof (v_ki _ I _ _ _ H) as X. inversion X; subst.
+  eapply (v_own_k _ I); eauto.
+Qed.
+
+Lemma step_bs s t s' evs : Inv s -> step t s = Some (s', evs) ->
+  forall t0 x i, nth_error (thr s') t0 = Some x -> pre_start x = Some i -> o_started (ops s' i) = false.
+Proof.
+  intros I H t0 x i0 H0 Hp. step_split H Hth; simpl in *;
+  (destruct (nth_thr_cases _ _ _ _ _ _ Hth H0) as [[-> E]|[N E]];
+   [ subst x; try (destruct kc; simpl in *; try kill_ki I Hth); destr_if; try discriminate;
+     inversion Hp; subst;
+     (pose proof (v_bs _ I _ _ _ Hth eq_refl) as B; unfold getop in *; simpl in *; destr_if; simpl; auto)
+   | pose proof (v_bs _ I _ _ _ E Hp) as B; unfold getop in *; simpl in *; destr_if; simpl; auto ]).
+  all: try (match goal with Q : (_ =? _) = true |- true = false => apply Nat.eqb_eq in Q; subst end;
+            exfalso; apply N;
+            rewrite (pre_start_own _ _ _ _ I E Hp);
+            symmetry; eapply (v_own_a _ I _ _ _ _ Hth); reflexivity).
+  all: pose proof (v_ki _ I _ _ _ Hth) as X; inversion X; subst; exact B.
+Qed.
+
+Ltac count_simp :=
+  repeat rewrite count_app_single in *;
+  repeat match goal with
+  | |- context [count_occ Nat.eq_dec (remove_nat ?x ?l) ?k] =>
+      let R := fresh "R" in pose proof (count_remove_nat l x k) as R;
+      let v := fresh "v" in remember (count_occ Nat.eq_dec (remove_nat x l) k) as v eqn:Ev; clear Ev
+  end.
+
+Ltac requeue := repeat match goal with E : queue ?s = _ |- context [queue ?s] => rewrite E end.
+
+Lemma andb3_true a b c : a && b && c = true -> a = true /\ b = true /\ c = true.
+Proof. destruct a, b, c; simpl; intros; try discriminate; auto. Qed.
+
+(* facts about the moving thread that the arithmetic needs *)
+Ltac side_facts I Hth :=
+  unfold getop in *;
+  try match type of Hth with nth_error _ _ = Some (ACbOr _, KInlineCb _) =>
+        let X := fresh "X" in pose proof (v_ki _ I _ _ _ Hth) as X; inversion X; subst; clear X
+      end;
+  try match type of Hth with nth_error _ _ = Some (APopPub ?x, _) =>
+        let P := fresh "P" in pose proof (v_pp _ I _ _ _ Hth) as P; unfold inq in P;
+        let M := fresh "M" in assert (M : mem_nat x (queue _) = true) by (apply mem_nat_count; exact P)
+      end;
+  repeat match goal with
+  | Q : _ && _ = true |- _ => apply andb_prop in Q; destruct Q
+  | Q : negb _ = true |- _ => apply negb_true_iff in Q
+  end;
+  simpl in *; rewrite ?Nat.eqb_refl in *; simpl in *.
+
+Ltac use_mem :=
+  repeat match goal with Q : mem_nat ?x ?l = true, R : context [mem_nat ?x ?l] |- _ => rewrite Q in R end.
+
+(* stop() reached with started_ = false although state_ has the started bit: impossible *)
+Ltac kill_early I Hth :=
+  exfalso;
+  match goal with
+  | Q : o_started (ops ?s ?i) = true, Q' : o_started_ (ops ?s ?i) = false |- _ =>
+      rewrite (v_s1 _ I i Q) in Q'; discriminate Q'
+  | Q' : o_started_ (ops ?s ?i) = false |- _ =>
+      rewrite (v_as _ I _ _ i Hth eq_refl) in Q'; discriminate Q'
+  end.
+
+Lemma handles_mono s t s' evs : Inv s -> step t s = Some (s', evs) -> forall k, handles s' k <= handles s k.
+Proof.
+  intros I H k.
+  assert (G : forall h0, handles s k <= h0 -> handles s' k <= h0); [|apply G; apply le_n].
+  intros h0 E0.
+  step_split H Hth; unfold handles, inq in *; simpl; try (destruct kc; simpl; try kill_ki I Hth); destr_if;
+    use_sum Hth; count_simp; try (eqb_cases; lia);
+    side_facts I Hth; try (kill_early I Hth); try (use_mem; eqb_cases; lia).
+Qed.
+
+(* the step of a thread whose activity is known *)
+Ltac step_at H Hth :=
+  unfold step in H; rewrite Hth in H;
+  unfold ret, go_cleanup, go_hop, deliver, do_stop in H;
+  break_match H; try discriminate;
+  inversion H; subst; clear H.
+
+Lemma handles_tc s t s' evs k c kc : Inv s -> step t s = Some (s', evs) ->
+  nth_error (thr s) t = Some (ATryComplete k c, kc) -> handles s' k + 1 <= handles s k.
+Proof.
+  intros I H Hth.
+  assert (G : forall h0, handles s k <= h0 -> handles s' k + 1 <= h0); [|apply G; apply le_n].
+  intros h0 E0.
+  step_at H Hth; unfold handles, inq in *; simpl; try (destruct kc; simpl; try kill_ki I Hth); destr_if;
+    use_sum Hth; count_simp; try (eqb_cases; lia).
+Qed.
+
+Lemma completed_change s t s' evs k : step t s = Some (s', evs) ->
+  o_completed (ops s' k) = true ->
+  o_completed (ops s k) = true \/ exists c kc, nth_error (thr s) t = Some (ATryComplete k c, kc).
+Proof.
+  intros H Hc.
+  step_split H Hth; simpl in *; unfold getop in *; destr_if; simpl in *; auto;
+    try (match goal with Q : (_ =? _) = true |- _ => apply Nat.eqb_eq in Q; subst end; simpl in *; auto);
+    try (right; eauto).
+Qed.
+
+Lemma step_hs s t s' evs : Inv s -> step t s = Some (s', evs) ->
+  (forall k, handles s' k <= 1) /\ (forall k, handles s' k = 1 -> o_completed (ops s' k) = false).
+Proof.
+  intros I H. split.
+  - intros k. pose proof (handles_mono _ _ _ _ I H k). pose proof (v_hs1 _ I k). lia.
+  - intros k Hk. destruct (o_completed (ops s' k)) eqn:Ec; auto. exfalso.
+    pose proof (handles_mono _ _ _ _ I H k) as M. pose proof (v_hs1 _ I k) as H1.
+    destruct (completed_change _ _ _ _ k H Ec) as [Hc|[c [kc Hth]]].
+    + assert (handles s k = 1) by lia. rewrite (v_hs2 _ I k) in Hc by auto. discriminate.
+    + pose proof (handles_tc _ _ _ _ _ _ _ I H Hth). lia.
+Qed.
+
+(* variants that do not substitute the caller's equations *)
+Ltac step_split' H Hth :=
+  unfold step in H;
+  match type of H with context [nth_error (thr ?s) ?t] =>
+    let a := fresh "a" in let kc := fresh "kc" in
+    destruct (nth_error (thr s) t) as [[a kc]|] eqn:Hth; [|discriminate];
+    destruct a end;
+  unfold ret, go_cleanup, go_hop, deliver, do_stop in H;
+  break_match H; try discriminate;
+  injection H as <- <-.
+
+Ltac step_at' H Hth :=
+  unfold step in H; rewrite Hth in H;
+  unfold ret, go_cleanup, go_hop, deliver, do_stop in H;
+  break_match H; try discriminate;
+  injection H as <- <-.
+
+Ltac rw_completed :=
+  repeat match goal with
+  | Q : o_completed ?o = _, E : context [b2n (o_completed ?o)] |- _ => rewrite Q in E
+  | Q : o_completed ?o = _ |- context [b2n (o_completed ?o)] => rewrite Q
+  end.
+
+Lemma step_ps s t s' evs : Inv s -> step t s = Some (s', evs) ->
+  forall k, posts s' k + length (o_res (ops s' k)) = b2n (o_completed (ops s' k)).
+Proof.
+  intros I H k.
+  pose proof (v_ps _ I k) as E0.
+  step_split' H Hth; unfold posts in *; simpl; try (destruct kc; simpl; try kill_ki I Hth); destr_if;
+    use_sum Hth; unfold getop in *; simpl in *;
+    eqb_cases; subst; simpl in *; rw_completed; simpl in *; try congruence; try lia.
+Qed.
+
+Lemma sumf_le {A} (f g : A -> nat) l : (forall x, f x <= g x) -> sumf f l <= sumf g l.
+Proof. intros H. unfold sumf. induction l; simpl; auto. specialize (H a). lia. Qed.
+
+Lemma sumf_add {A} (f g : A -> nat) l : sumf (fun x => f x + g x) l = sumf f l + sumf g l.
+Proof. unfold sumf. induction l; simpl; auto. lia. Qed.
+
+Lemma lockish_le1 s k : Inv s -> lockish s k <= 1.
+Proof.
+  intros I. unfold lockish.
+  assert (L : sumf (is_lockish k) (thr s) <= sumf (is_pre k) (thr s) + sumf (is_post k) (thr s)).
+  { rewrite <- sumf_add. apply sumf_le. intros [a kc]. destruct a; simpl; try lia;
+      try (destruct c; simpl; lia); try (destruct kc; simpl; lia). }
+  pose proof (v_hs1 _ I k) as H1. pose proof (v_hs2 _ I k) as H2. pose proof (v_ps _ I k) as P.
+  unfold handles, posts in *.
+  destruct (Nat.eq_dec (sumf (is_pre k) (thr s) + inq s k) 1) as [E|E].
+  - rewrite (H2 E) in P. simpl in P. lia.
+  - destruct (o_completed (ops s k)); simpl in P; lia.
+Qed.
+
+Lemma step_cs s t s' evs : Inv s -> step t s = Some (s', evs) ->
+  forall k, o_cancelled (ops s' k) = true -> lockish s' k = 0.
+Proof.
+  intros I H k Hc.
+  pose proof (v_cs _ I k) as E0. pose proof (lockish_le1 s k I) as L1.
+  step_split' H Hth; unfold lockish, inq in *; simpl; try (destruct kc; simpl; try kill_ki I Hth); destr_if;
+    use_sum Hth; count_simp; unfold getop in *; simpl in *;
+    eqb_cases; subst; simpl in *; try (specialize (E0 Hc)); try lia;
+    side_facts I Hth; try (kill_early I Hth); try (use_mem; eqb_cases; lia).
+
+Qed.
+
+Lemma cancelled_mono s t s' evs k : step t s = Some (s', evs) ->
+  o_cancelled (ops s k) = true -> o_cancelled (ops s' k) = true.
+Proof.
+  intros H Hc. step_split' H Hth; simpl; unfold getop in *; destr_if; simpl; auto.
+Qed.
+
+Lemma started__mono s t s' evs k : step t s = Some (s', evs) ->
+  o_started_ (ops s k) = true -> o_started_ (ops s' k) = true.
+Proof.
+  intros H Hc. step_split' H Hth; simpl; unfold getop in *; destr_if; simpl; auto.
+Qed.
+
+Lemma step_ci s t s' evs : Inv s -> step t s = Some (s', evs) ->
+  forall t0 a kc k c, nth_error (thr s') t0 = Some (a, kc) -> compl_of a = Some (k, c) ->
+  is_lock_ctx c = false -> o_cancelled (ops s' k) = true.
+Proof.
+  intros I H t0 a0 kc0 k0 c0 H0 Hc Hl.
+  pose proof (cancelled_mono _ _ _ _ k0 H) as M.
+  step_split' H Hth; simpl in H0;
+  (destruct (nth_thr_cases _ _ _ _ _ _ Hth H0) as [[-> E]|[N E]];
+   [ injection E as Ea Ek; subst a0 kc0; try (destruct kc; simpl in Hc; try kill_ki I Hth);
+     repeat match type of Hc with context [if ?b then _ else _] => destruct b eqn:? end;
+     simpl in Hc; try discriminate Hc;
+     injection Hc as Ek0 Ec0; subst k0 c0; try discriminate Hl;
+     try first [ apply M; eapply (v_ci _ I _ _ _ _ _ Hth); [reflexivity|assumption]
+           | unfold getop in *; simpl; rewrite ?Nat.eqb_refl; simpl; reflexivity ]
+   | apply M; eapply (v_ci _ I); eauto ]).
+
 Qed.
